@@ -207,15 +207,22 @@ def render_case(shape, prefix='c', kinds='$<>', label_len=1, distinct_labels=Tru
     deforder = list(range(len(blocks)))
     if opts.get('defrev'):
         deforder.reverse()
-    ftext = []
-    for n, bi in enumerate(deforder):
-        if n:
-            ftext.append(',')
-        nm = names[bi]
-        ftext.extend(['#'] + list(SymStr.lift(nm)._chs if not isinstance(nm, str) else nm) + ['='] + frag_texts[bi])
+
+    def frag_block(order):
+        ftext = []
+        for n, bi in enumerate(order):
+            if n:
+                ftext.append(',')
+            nm = names[bi]
+            ftext.extend(['#'] + list(SymStr.lift(nm)._chs if not isinstance(nm, str) else nm) + ['='] + frag_texts[bi])
+        return ftext
+    ftext = frag_block(deforder)
     text = cat('{', btext, '}.{', ftext, '}')
     r = Rendered()
     r.text = text
+    r.base_text = cat('{', btext, '}')
+    r.frag_text = cat('{', ftext, '}')
+    r.frag_perms = [cat('{', frag_block(list(p)), '}') for p in itertools.permutations(deforder)][:6]
     r.holes = holes
     r.mol = mol
     r.blocks = blocks
